@@ -88,12 +88,12 @@ m = {
     },
     'engines': [
         {'name': 'pkv-mirdump', 'path': 'driver/', 'serves_properties': sorted(INFO), 'kind_free_text': 'rustc_private driver dumping resolved MIR + type facts of /repo as JSON (RUSTC_WORKSPACE_WRAPPER under cargo +nightly check)'},
-        {'name': 'pkv-shims', 'path': 'shims/', 'serves_properties': sorted(INFO), 'kind_free_text': 'safe index-based Rust stand-ins for the raw-pointer based core::slice APIs (iter/next/find/find_map/position/any/all/get/contains/binary_search_by), compiled by pkv-mirdump at setup and interpreted as MIR'},
+        {'name': 'pkv-shims', 'path': 'shims/', 'serves_properties': sorted(INFO), 'kind_free_text': 'safe index-based Rust stand-ins for the raw-pointer based core::slice / core::array / core::str iterator APIs (slice::Iter and IterMut, array::IntoIter, Chars/Bytes/CharIndices, case-mapping iterators, binary_search_by, ...), compiled by pkv-mirdump at setup and interpreted as MIR'},
         {'name': 'mirtab', 'path': 'pkv/', 'serves_properties': sorted(INFO), 'kind_free_text': 'value-set abstract interpreter over the dumped MIR extracting decision tables with span provenance; repository-specific rules on top'},
     ],
     'checks': checks,
     'not_applicable': [{'property_id': k, 'reason': v} for k, v in sorted(PENDING.items())],
-    'notes': 'Static analysis only: no code of /repo is executed by any registered command (the C20 probe is type-checked with cargo check, never run). seeded/, seeded2/ and refactors/ hold the 72 defects and 15 behaviour-preserving refactorings the checks were tested against (DESIGN.md section 10); tools/run_seeded.py replays them on scratch copies. See DESIGN.md.',
+    'notes': 'Static analysis only: no code of /repo is executed by any registered command (the C20 probe is type-checked with cargo check, never run). seeded/, seeded2/, seeded3/, redteam/ and refactors/ hold the 172 seeded defects, 81 red-team defects and 122 behaviour-preserving changes the checks were tested against (DESIGN.md section 10); tools/run_seeded.py replays them on scratch copies; enginetest/ + tools/engine_conformance.py validate the abstract interpreter against native execution of 215 idiom functions (not a registered check). See DESIGN.md.',
 }
 json.dump(m, open(os.path.join(V, 'MANIFEST.json'), 'w'), indent=1)
 print('MANIFEST.json: %d checks, %d not_applicable' % (len(checks), len(PENDING)))
